@@ -8,3 +8,10 @@ package qr
 //@   abstract
 //@   requires qr != nil
 //@   ensures result < 18446744073709551615
+
+// shape of the per-block Reed-Solomon step (the algebra is a bounded stand-in, C17)
+//@ func (*errorCorrection).calcECC
+//@   abstract
+//@   attr fresh_result eccCount 0 256
+//@   requires ec != nil
+//@   ensures fresh(result) && len(result) == eccCount
